@@ -45,7 +45,7 @@ def workdir(tag: str) -> Path:
 def run_tlc(module: str, cfg: str, *, env: dict | None = None, workers: int = 16, timeout: int = 1800,
             simulate: str | None = None, depth: int | None = None, coverage: bool = False,
             seed: int | None = None, extra: list | None = None, heap: str = "6g", deque: bool = False,
-            deadlock: bool = False) -> TlcResult:
+            deadlock: bool = False, allow_fail: bool = False) -> TlcResult:
     """Run TLC on spec/<module>.tla with spec/<cfg>. Returns parsed result; raises MachineryError on a TLC crash."""
     import time
 
@@ -103,7 +103,7 @@ def run_tlc(module: str, cfg: str, *, env: dict | None = None, workers: int = 16
             if "is violated" in line and "Error: Action property" in line:
                 r.violated.append(line)
     r.ok = "No error has been found" in out or (simulate is not None and "Error:" not in out)
-    if not r.ok and not r.violated:
+    if not r.ok and not r.violated and not (allow_fail and r.lines):
         tail = "\n".join(l for l in out.splitlines() if not l.startswith('"@@'))[-3000:]
         raise MachineryError(f"TLC failed on {module}/{cfg}:\n{tail}")
     return r
